@@ -1,0 +1,22 @@
+//go:build verif
+
+package packetlimiter
+
+import "time"
+
+// VerifCounter gives the verification harness access to the sliding-window counter.
+type VerifCounter struct{ c *counter }
+
+// VerifNewCounter is newCounter.
+func VerifNewCounter(interval time.Duration) *VerifCounter {
+	return &VerifCounter{c: newCounter(interval)}
+}
+
+// UpdateAndAdd is counter.updateAndAdd.
+func (v *VerifCounter) UpdateAndAdd(count, now int64) { v.c.updateAndAdd(count, now) }
+
+// Sum is counter.sum.
+func (v *VerifCounter) Sum() int64 { return v.c.sum() }
+
+// Cap is the current ring capacity.
+func (v *VerifCounter) Cap() int { return len(v.c.times) }
